@@ -314,6 +314,8 @@ func directSelfLoop(cs caseT) bool {
 	return !g.NodeInhabited(cs.Root, inh)
 }
 
+var reductions int
+
 func report(c *ev.Ctx, cs caseT, dir string) {
 	if dir == "recursion-accepted" && !directSelfLoop(cs) && !cs.Mesh {
 		// Known class (see known_findings.json): required recursion that is not a
@@ -321,6 +323,19 @@ func report(c *ev.Ctx, cs caseT, dir string) {
 		_, desc := eval(cs, nil)
 		c.Inc("recursion_accepted_beyond_one_hop")
 		c.Violate("recursion-accepted;not-a-direct-self-reference", desc, cs)
+		return
+	}
+	// Under a defect that makes most cases fail, reducing every one of them
+	// (hundreds of library runs each) would take the whole budget: after the
+	// first 24 reductions of this worker the case is reported as enumerated.
+	// (The recorded class above never comes here, so no recorded key depends
+	// on a reduction having run.)
+	reductions++
+	if reductions > 24 {
+		red := canonical(cs)
+		_, desc := eval(red, nil)
+		c.Inc("reported_unreduced")
+		c.Violate(dir+";"+red.scCase().Describe()+fmt.Sprintf(";missing=%d", red.Missing), desc, red)
 		return
 	}
 	red := ev.Reduce(cs, func(x caseT) []caseT {
